@@ -4,7 +4,7 @@
 (* 13 header bytes (abstracted by the reference parser) must be what the     *)
 (* contract prescribes, and the stream's termination mode must match.        *)
 (*  {"ev":"New","sih":b,"size":n,"eos":b,"lc":..,"lp":..,"pb":..,"dictCap":d,"ok":b,                *)
-(*   "hProp":code,"hDict":d,"hSize":n|-1}                                                          *)
+(*   "hdr":b,"hProp":code,"hDict":d,"hSize":n|-1}                                                       *)
 (*  {"ev":"W","n":k,"ret":r,"err":"nil|nospace|other"}  {"ev":"C","err":"nil|size|other"}           *)
 (*  {"ev":"End","marker":b,"decoded":n}   what the reference decoder found in the sink            *)
 EXTENDS LzmaAlone, TLCExt
@@ -16,9 +16,11 @@ E == Tr[l]
 Is(ev) == l <= Len(Tr) /\ E.ev = ev /\ l' = l + 1
 TNew == /\ Is("New")
         /\ E.ok = (ConfigValid(E.sih, E.size, E.eos) /\ ValidProps(E.lc, E.lp, E.pb))
-        /\ E.ok => /\ E.hProp = PropCode(E.lc, E.lp, E.pb)
-                   /\ E.hDict = E.dictCap
-                   /\ E.hSize = HeaderSize(E.sih, E.size)
+        \* "hdr" = the 13 header bytes have reached the sink (a writer in front of a plain io.Writer may
+        \* hold them back until a successful Close); the dictionary size stated must cover the capacity
+        /\ (E.ok /\ E.hdr) => /\ E.hProp = PropCode(E.lc, E.lp, E.pb)
+                              /\ E.hDict >= E.dictCap
+                              /\ E.hSize = HeaderSize(E.sih, E.size)
         /\ sih' = E.sih /\ size' = E.size /\ eos' = E.eos /\ accepted' = 0 /\ closed' = "no" /\ hist' = <<>>
 TWrite == /\ Is("W") /\ Write(E.n)
           /\ hist'[Len(hist')].ret = E.ret /\ hist'[Len(hist')].err = E.err
